@@ -385,6 +385,33 @@ def rule_hw(ctx):
             tc = side
   ok = tw is not None and tc is not None and (tw - (bl - 12)).is_zero() and (tc - bl).is_zero()
   ctx.record(R, f.where, "threshold_weak = bitlen - 12, threshold_cutoff = bitlen", ok, "documented thresholds" if ok else "thresholds are %r / %r" % (tw, tc))
+  # the search starts from the pair (1, 1) at the top bit of the primes: the documented invariant (p0 << bit) * (q0 << bit) <= n < ((p0 + 1) << bit) *
+  # ((q0 + 1) << bit) must hold for it, i.e. 2 * bit <= bit_length(n) - 1 <= 2 * bit + 1 (a start one bit too high has a negative remainder and every
+  # branch is pruned).  The start position is evaluated as a term of bit_length(n) for all lengths 2 .. 4200.
+  from pcstatic import termeval
+  starts = [e for e in w.events if e.kind == "call" and str(e.data["name"]).startswith("local:") and len(e.data["args"]) >= 5 and
+            all(isinstance(a_, (Poly, Const)) and as_poly(a_).as_int() == 1 for a_ in e.data["args"][:2])]
+  oks, whys = bool(starts), "no initial push of the pair (1, 1)"
+  for e in starts:
+    bit = as_poly(e.data["args"][3])
+    bad = None
+    try:
+      for blv in list(range(2, 200)) + [1023, 1024, 2047, 2048, 4095, 4096]:
+        bv_ = termeval.ev(bit, {bl.as_atom(): blv})
+        if not (isinstance(bv_, int) and 2 * bv_ <= blv - 1 <= 2 * bv_ + 1):
+          bad = "for a %d-bit modulus the search starts at bit %r: 4^bit %s n, the invariant p0 q0 4^bit <= n < (p0 + 1)(q0 + 1) 4^bit fails for the start pair (1, 1)" % (
+              blv, bv_, "exceeds" if isinstance(bv_, int) and 2 * bv_ > blv - 1 else "is more than a factor 4 below")
+          break
+    except (termeval.Unknown, termeval.Raises) as u:
+      ctx.incomplete(R, f.where, "start of the search", "start position not evaluable as a term of bit_length(n): %s" % u)
+      oks = None
+      break
+    rem_ok = as_poly(e.data["args"][4]) == sym.mk("bitlen", n - sym.mk("pow", Poly.const(2), bit * 2)) or \
+        as_poly(e.data["args"][4]) == sym.mk("bitlen", n - sym.mk("shl", Poly.const(1), bit * 2))
+    if bad or not rem_ok:
+      oks, whys = False, bad or "the start remainder is not bit_length(n - 4^bit): %r" % (e.data["args"][4],)
+  if oks is not None:
+    ctx.record(R, f.where, "search starts from (1, 1) at bit ceil(bits / 2) - 1 with remainder n - 4^bit", oks, "invariant holds for the start pair at every modulus length" if oks else whys)
   dc, dm = fold.try_fold(f.default_of("cutoff")), fold.try_fold(f.default_of("maxsteps"))
   ctx.record(R, f.where, "defaults cutoff 2500, maxsteps 10^6", dc is not None and dm is not None and dc >= 2500 and dm >= 10 ** 6, "cutoff %r, maxsteps %r" % (dc, dm))
   rets = [e for e in w.events if e.kind == "return" and e.node is not None and isinstance(e.data["value"], Seq) and isinstance(e.data["value"].items[0], tuple)]
